@@ -342,9 +342,9 @@ def check(run):
     run.rule("R04.5", "shape setter replays a view on the un-reshape exactly when its parent is the re-shaped tensor", floor=2)
     run.rule("R04.4", "Tensor._op: base is None or the memory owner; the three sharing configurations are recognised; views are registered and record "
              "their replay arguments", floor=5)
-    r04_1(run)
-    r04_2(run)
-    r04_3(run)
-    r04_4(run)
-    r04_5(run)
-    r04_6(run)
+    run.do(r04_1)
+    run.do(r04_2)
+    run.do(r04_3)
+    run.do(r04_4)
+    run.do(r04_5)
+    run.do(r04_6)
